@@ -78,6 +78,18 @@ ADD8 = {
 }
 for k, v in ADD8.items():
     t = list(CHECKS[k]); t[4] = t[4] + v; CHECKS[k] = tuple(t)
+ADD10 = {
+ "C07": " A vendor-prefixed rule and a plain rule for the same property in one table: declarations under the prefixed name are also witnessed with the values only the plain rule accepts.",
+ "C08": " Default-table layer: each of the ten element names the statement lists as skipped by default (written out in the check) is tried alone, inside a kept element and after another skipped element, with text and markup inside, under three policies that rely on the default table.",
+ "C11": " Six option masks with RequireParseableURLs(false) set after the link options, so that hrefs net/url refuses but a browser follows reach the hardening pass; 'has a host' strips leading and trailing C0 / space and tab / newline first, as a browser does.",
+ "C13": " Enum entries of the shared policy are spelled in mixed case; in the free-running race pass the shared policy meets its first calls concurrently (the sequential references come from a second object) and one in four calls is SanitizeReaderToWriter into a destination that offers only Write.",
+ "C14": " Every style value of <=4 (thorough 5) bytes over the 16 bytes the style scanner's branches distinguish, as a value and as a property name.",
+ "C15": " Single tokens of 511 ... 200000 bytes (text, attribute value, comment), whole and split in the middle, into both kinds of destination.",
+ "C16": " A policy that removes script / style but writes their text back escaped (AllowUnsafe + AllowElementsContent) is in the family.",
+ "C20": " Policies with AllowUnsafe that allow neither script nor style are in the class.",
+}
+for k, v in ADD10.items():
+    t = list(CHECKS[k]); t[4] = t[4] + v; CHECKS[k] = tuple(t)
 
 built = [i for i in ids if i in CHECKS and os.environ.get("ONLY", i) ]
 checks = []
